@@ -463,7 +463,23 @@ func (g *c12Gen) hof(d int) jast.Node {
 func (g *c12Gen) chain() jast.Node {
 	r := g.r
 	unary := func() jast.Node {
-		switch r.Intn(7) {
+		switch r.Intn(9) {
+		case 7:
+			// a stage that yields no value: the following stages still run (on 'no value')
+			g.tags["chain:stage-without-value"] = true
+			if r.Bool() {
+				return &jast.Lambda{Params: []string{"x"}, Body: &jast.Path{Steps: []jast.Node{&jast.Var{Name: "x"}, &jast.Name{V: "missing"}}}}
+			}
+			return &jast.Call{Fn: &jast.Var{Name: "lookup"}, Args: []jast.Node{&jast.Placeholder{}, &jast.Str{V: "zz"}}}
+		case 8:
+			// stages that turn 'no value' into a value
+			switch r.Intn(3) {
+			case 0:
+				return &jast.Var{Name: "exists"}
+			case 1:
+				return &jast.Var{Name: "count"}
+			}
+			return &jast.Lambda{Params: []string{"x"}, Body: &jast.Cond{If: &jast.Call{Fn: &jast.Var{Name: "exists"}, Args: []jast.Node{&jast.Var{Name: "x"}}}, Then: &jast.Var{Name: "x"}, Else: &jast.Str{V: "dflt"}}}
 		case 0:
 			return &jast.Lambda{Params: []string{"x"}, Body: &jast.Bin{Op: "*", L: &jast.Var{Name: "x"}, R: &jast.Num{V: float64(r.Range(2, 3))}}}
 		case 1:
@@ -570,6 +586,15 @@ func (g *c12Gen) chain() jast.Node {
 			rhs = unary()
 		}
 		e = &jast.Apply{L: e, R: rhs}
+	}
+	if g.tags["chain:compose"] {
+		// a composition is a function: call it (with and without an argument),
+		// otherwise only the fact that it is a function would be observed
+		arg := []jast.Node{[]jast.Node{&jast.Num{V: 3}, lit(O{"k": 1.0}), lit(A{1.0, 2.0}), &jast.Name{V: "nothing"}}[r.Intn(4)]}
+		if r.Intn(5) == 0 {
+			arg = nil
+		}
+		e = &jast.Call{Fn: &jast.Block{Exprs: []jast.Node{e}}, Args: arg}
 	}
 	g.tags["chain"] = true
 	return &jast.Block{Exprs: []jast.Node{
